@@ -183,7 +183,7 @@ var c10List = hx.Register(&hx.Check[c10ListCase]{
 const c10Yang = `module c10 { namespace "urn:c10"; prefix c; revision 2020-01-01;
  identity base; identity d1 { base base; } identity d2 { base d1; } identity other;
  typedef en { type enumeration { enum a; enum b { value 5; } enum c; enum z { value 0; } } }
- typedef bt { type bits { bit x; bit y { position 5; } bit z; } }
+ typedef bt { type bits { bit x; bit y { position 5; } bit z; bit h53 { position 53; } bit h60 { position 60; } } }
  leaf e { type en; }
  leaf-list el { type en; }
  leaf b { type bt; }
@@ -216,7 +216,7 @@ func c10Leaf(name string) meta.Leafable {
 	return findDef(m, name).(meta.Leafable)
 }
 
-var bitPos = map[string]uint{"x": 0, "y": 5, "z": 6}
+var bitPos = map[string]uint{"x": 0, "y": 5, "z": 6, "h53": 53, "h60": 60}
 
 func genTypedSrc(t *rapid.T, leaf string) srcList {
 	pick := func(label string) srcVal {
@@ -247,6 +247,11 @@ func genTypedSrc(t *rapid.T, leaf string) srcList {
 				rapid.Map(rapid.SampledFrom([]string{"0", "1", "32", "33", "97", "2", "128", "3", "-1", "4294967297"}), func(s string) srcVal { return srcVal{"int", s} }),
 				rapid.Map(rapid.SampledFrom([]string{"0", "1", "32", "97", "2", "18446744073709551615"}), func(s string) srcVal { return srcVal{"uint64", s} }),
 				rapid.Map(rapid.SampledFrom([]string{"0", "1", "32.5", "97", "2", "-1", "1.9"}), func(s string) srcVal { return srcVal{"float64", s} }),
+				rapid.Map(rapid.SampledFrom([]string{"0", "1", "33", "9007199254740992", "9007199254740993", "1152921504606846976", "1152921504606846977", "1161928703861587969", "2", "-1", "1.5", "18446744073709551616"}), func(s string) srcVal {
+					return srcVal{"json-number", s}
+				}),
+				rapid.Map(rapid.SampledFrom([]string{"h53", "h60 x", "x h53 h60"}), func(s string) srcVal { return srcVal{"string", s} }),
+				rapid.Map(rapid.SampledFrom([]string{"9007199254740993", "1152921504606846977"}), func(s string) srcVal { return srcVal{"uint64", s} }),
 			).Draw(t, label)
 		case "i":
 			return rapid.OneOf(
@@ -336,10 +341,10 @@ func c10JudgeTyped(leaf string, src srcVal, got val.Value) (string, string) {
 				return "truncates", fmt.Sprintf("%s(%s) is no bit mask but became %v", src.Kind, src.Text, b.Positions)
 			}
 			wantPos = num.Num().Uint64()
-			if wantPos&^(1|1<<5|1<<6) != 0 {
+			if wantPos&^(1|1<<5|1<<6|1<<53|1<<60) != 0 {
 				return "drops-unknown", fmt.Sprintf("mask %s has undeclared bits but became %d", src.Text, b.Positions)
 			}
-			for _, n := range []string{"x", "y", "z"} {
+			for _, n := range []string{"x", "y", "z", "h53", "h60"} {
 				if wantPos&(1<<bitPos[n]) != 0 {
 					wantLabels = append(wantLabels, n)
 				}
